@@ -138,6 +138,7 @@ def install_check(E, max_violations):
 
 
 def reset_path(E, trace):
+    E.rollback_module_state()
     E.trace = list(trace)
     E.tpos = 0
     E.g = True
